@@ -8,7 +8,8 @@ shard:
   slog    the sender is a logger (connected states only)
   others  list of kinds: "L" logger | "A" subscribed to ALL (monitors CLIENT_INFO/CLIENT_CLOSED/FAILED_MESSAGE) | "N" no subscriptions
   names   [sender name idx, request name idx, other0 idx, other1 idx] into POOL
-  recv    "full" | "short_h" | "reset_h" | "short_d" | "reset_d"
+  recv    "full" | "short_h" | "reset_h" | "short_d" | "short_d1" | "reset_d"
+  swr     0: the sender's own connection is not in the round's writable list (default 1)
   sfail   0 | 1 | 2: the sender's connection dies at its next / next-but-one sendall (write-side discovery while acknowledging)
 symbolic: every header field (C range of its type), declared length in all of int32, payload ints p1..p5 in int16/int32,
           module ids, S's subscribed type t0, the dynamic-id cursor, unique flags of the others
@@ -66,6 +67,8 @@ def setup(ht, hsrc, hdst, hdh, nbytes, p1, p2, p3, p4, p5, sid, id1, id2, t0, of
         elif kind == "A":
             W.subscribe(mm, o, ALL)
     mm.wlist = [m.conn for m in mods]
+    if not sh("swr", 1):
+        mm.wlist = [m.conn for m in mods[1:]]
     mm.next_dynamic_mod_id_offset = off
     if sh("sfail", 0):
         S.conn.fail_after = sh("sfail") - 1
@@ -88,7 +91,7 @@ def setup(ht, hsrc, hdst, hdh, nbytes, p1, p2, p3, p4, p5, sid, id1, id2, t0, of
     W.set_incoming(mm, hf, payload)
     recv = sh("recv", "full")
     S.conn.recv_script = {"full": ["full", "full"], "short_h": [("short", 7)], "reset_h": ["reset"],
-                          "short_d": ["full", ("short", 0)], "reset_d": ["full", "reset"]}[recv]
+                          "short_d": ["full", ("short", 0)], "short_d1": ["full", ("short", 1)], "reset_d": ["full", "reset"]}[recv]
     w.pre_ids = [m.mod_id for m in mods]
     w.pre_conn = [m.connected for m in mods]
     return w
@@ -166,7 +169,9 @@ def oracle(which, ht, hsrc, hdst, hdh, nbytes, p1, p2, p3, p4, p5, sid, id1, id2
         if alive[k] and not m.conn.whole_frames():
             return False, "module %d received a torn frame" % k
     length_ok = 0 <= nbytes <= 1024 ** 2   # a header declaring an unreceivable length makes the manager drop that client
-    delivered = length_ok and (recv == "full" or (recv in ("short_d", "reset_d") and nbytes == 0))
+    # short_d: the peer closes before any payload byte; short_d1: after exactly one payload byte (a frame of one byte is then whole)
+    delivered = length_ok and (recv == "full" or (recv in ("short_d", "short_d1", "reset_d") and nbytes == 0)
+                               or (recv == "short_d1" and nbytes == 1))
     if which == "c03":
         return True, ""
 
